@@ -445,6 +445,12 @@ ENUM @kinds
     "a", // first
     "b"
   ]
+ENUM @sizes
+  [
+    1, /* one
+    more */ 2
+  ] /* trailing
+  note */
 URL /cats/{id}
 (
   Path
